@@ -172,6 +172,9 @@ pub struct Rejection {
 pub struct Accepted {
     pub reg: Vec<(String, Vec<(String, AmtMap)>)>, // (date, [(account, amount)])
     pub bal: BTreeMap<String, AmtMap>,
+    /// (account, commodity) pairs that the balance report holds with an exactly zero value
+    /// (Report.tla NoZeroCommodity: balances never keep a cancelled-out commodity)
+    pub zero_entries: Vec<(String, String)>,
 }
 
 pub enum Outcome {
@@ -250,13 +253,22 @@ pub fn project_ledger<'c>(ctx: &ReportContext<'c>, ledger: &mut query::Ledger<'c
         .balance(ctx, &query::BalanceQuery::default())
         .map_err(|e| format!("balance query failed: {}", e))?
         .into_owned();
+    let mut zero_entries = Vec::new();
     for (a, amt) in b.into_vec() {
+        for single in amt.iter() {
+            let txt = single.to_string();
+            if let Some((v, c)) = txt.split_once(' ') {
+                if v.parse::<Decimal>().map(|d| d.is_zero()).unwrap_or(false) {
+                    zero_entries.push((a.as_str().to_string(), c.to_string()));
+                }
+            }
+        }
         let m = amount_map(&amt);
         if !m.is_empty() {
             bal.insert(a.as_str().to_string(), m);
         }
     }
-    Ok(Accepted { reg, bal })
+    Ok(Accepted { reg, bal, zero_entries })
 }
 
 pub fn run_process(text: &str) -> Outcome {
@@ -445,6 +457,9 @@ pub fn replay_with(_idx: usize, rec: &Value, format_first: bool) -> Value {
                 }
                 if want_bal != acc.bal && viols.is_empty() {
                     viols.push(viol("balance", format!("balances {:?}, specification says {:?}", acc.bal, want_bal)));
+                }
+                if !acc.zero_entries.is_empty() && viols.is_empty() {
+                    viols.push(viol("zero_commodity_in_balance", format!("the balance keeps commodities with an exactly zero value: {:?} (a commodity that cancels out is no longer held)", acc.zero_entries)));
                 }
             }
         }
